@@ -101,7 +101,8 @@ Record path_entry := {
   pe_backend : string;
   pe_headers : list header_cond;
   pe_match_all : bool;
-  pe_filter : option N }.       (* id of the path-level IP filter *)
+  pe_filter : option N;         (* id of the path-level IP filter *)
+  pe_body : Z }.                (* clientMaxBodySize of the path (0 = unset, < 0 = unlimited/stream) *)
 
 Record rule := {
   ru_host : string;
@@ -112,7 +113,8 @@ Record rule := {
 Record server := {
   sv_filter : option N;
   sv_rules : list rule;
-  sv_backends : list string }.  (* names the MuxMapper knows *)
+  sv_backends : list string;    (* names the MuxMapper knows *)
+  sv_body : Z }.                (* clientMaxBodySize of the server (0 = default 4 MiB, < 0 = unlimited) *)
 
 Record request := {
   rq_host : string;
@@ -122,7 +124,8 @@ Record request := {
   rq_rawpath : string;                   (* URL.RawPath: the wire encoding when it differs (%2F, %41 ...);
                                             carried by the request, never consulted by the router *)
   rq_headers : list (string * string);   (* canonical key -> first value *)
-  rq_ip : string }.                      (* realip.FromRequest *)
+  rq_ip : string;                        (* realip.FromRequest *)
+  rq_body : Z }.                         (* number of body bytes the client sends (declared or chunked) *)
 
 Inductive res :=
 | Route (p : path_entry)
@@ -130,7 +133,7 @@ Inductive res :=
 
 Inductive outcome :=
 | Dispatched (backend path : string)     (* handler [backend] invoked, sees [path] *)
-| Failed (code : Z)                      (* no handler invoked *)
+| Failed (code : Z)                      (* no handler invoked (incl. 413: body over the limit) *)
 | Panicked.                              (* nil regexp dereference in rewrite *)
 
 Definition fl (f : option N) : list N := match f with Some i => [i] | None => [] end.
@@ -316,13 +319,26 @@ Section Mux.
     else if nonempty (pe_regexp p) then Some (re_replace (pe_regexp p) path (pe_rewrite p))
     else None.                       (* nil *regexp.Regexp dereference *)
 
+  (** effective body limit of a matched entry (mux.go:507-511, httpprot FetchPayload): the
+      path's clientMaxBodySize, else the server's, else 4 MiB; a negative limit = stream, no
+      limit.  FetchPayload answers ErrRequestEntityTooLarge iff the client sends more bytes than
+      the limit, whether the length is declared (Content-Length) or not (chunked). *)
+  Definition default_max_body : Z := 4194304%Z.
+
+  Definition body_limit (sv : server) (p : path_entry) : Z :=
+    let m := if Z.eqb (pe_body p) 0 then sv_body sv else pe_body p in
+    if Z.eqb m 0 then default_max_body else m.
+
+  Definition too_large (sv : server) (p : path_entry) (rq : request) : bool :=
+    Z.leb 0 (body_limit sv p) && Z.ltb (body_limit sv p) (rq_body rq).
+
   Definition dispatch (sv : server) (rq : request) (r : res) : outcome :=
     match r with
     | Status c => Failed c
     | Route p =>
         if str_in (pe_backend p) (sv_backends sv) then
           match rewrite p (rq_path rq) with
-          | Some path' => Dispatched (pe_backend p) path'
+          | Some path' => if too_large sv p rq then Failed 413 else Dispatched (pe_backend p) path'
           | None => Panicked
           end
         else Failed 503
@@ -413,7 +429,8 @@ Section Mux.
   Definition mapper := list (string * N).
 
   Definition with_mapper (sv : server) (m : mapper) : server :=
-    {| sv_filter := sv_filter sv; sv_rules := sv_rules sv; sv_backends := map fst m |}.
+    {| sv_filter := sv_filter sv; sv_rules := sv_rules sv; sv_backends := map fst m;
+       sv_body := sv_body sv |}.
 
   (** identity of the handler invoked (None: no handler invoked) *)
   Definition handler_of (m : mapper) (o : outcome) : option N :=
@@ -450,14 +467,16 @@ Section Mux.
   Definition erase_path (p : path_entry) : path_entry :=
     {| pe_path := pe_path p; pe_prefix := pe_prefix p; pe_regexp := pe_regexp p;
        pe_methods := pe_methods p; pe_rewrite := pe_rewrite p; pe_backend := pe_backend p;
-       pe_headers := pe_headers p; pe_match_all := pe_match_all p; pe_filter := None |}.
+       pe_headers := pe_headers p; pe_match_all := pe_match_all p; pe_filter := None;
+       pe_body := pe_body p |}.
 
   Definition erase_rule (r : rule) : rule :=
     {| ru_host := ru_host r; ru_host_re := ru_host_re r; ru_filter := None;
        ru_paths := map erase_path (ru_paths r) |}.
 
   Definition erase_filters (sv : server) : server :=
-    {| sv_filter := None; sv_rules := map erase_rule (sv_rules sv); sv_backends := sv_backends sv |}.
+    {| sv_filter := None; sv_rules := map erase_rule (sv_rules sv); sv_backends := sv_backends sv;
+       sv_body := sv_body sv |}.
 
   (** validated configurations (spec.go Path.Validate / Header.Validate) *)
   Definition valid_header (h : header_cond) : bool :=
